@@ -398,7 +398,15 @@ def sweep_cases(tier):
         pool = (POOL_QUICK if tier == "quick" else POOL) + (POOL_WELL_EXTRA if sec == "Well" else [])
         fixed = list(BASE[sec]) if sec in ("Version", "Well") else []
         for n in range(0, Ls[sec] + 1):
-            for extras in itertools.product(pool, repeat=n):
+            if n <= 2:
+                lists = list(itertools.product(pool, repeat=n))           # every ordered list
+            else:
+                lists = []                                                # every multiset, in pool order and reversed
+                for c in itertools.combinations_with_replacement(pool, n):
+                    lists.append(c)
+                    if tuple(reversed(c)) != c:
+                        lists.append(tuple(reversed(c)))
+            for extras in lists:
                 items = fixed + list(extras)
                 if sec == "Well" and tier != "quick" and n <= 1:
                     layouts = [items, list(extras) + fixed]          # mandatory items last as well
@@ -514,14 +522,14 @@ def chunks(it, size):
 def build_run(tier, seed):
     quick = tier == "quick"
     Ls, fixed_upto = sweep_bounds(tier)
-    nrand = 1000 if quick else 30000
+    nrand = 1000 if quick else 20000
     run = Run("C03",
               "a case = (item lists of the four sections + ~Other text, version); each is written once and read back with "
               "mnemonic_case preserve/upper/lower (3 evaluations); non-trivial when some section holds >= 2 items whose "
               "len(unit)+len(text between unit and colon) differ, so that the padding of one line depends on another item",
               "in-memory LASFile objects over the conformant alphabet x {1.2, 2.0} x {preserve, upper, lower}",
-              "sweep: every list of 0..n pool items per section (n = %s; pool %d, ~Well %d; ~Version/~Well lists follow the mandatory "
-              "items) x each item in turn widened in %d ways (mandatory items only next to <= %d pool items); "
+              "sweep: every ordered list of 0..min(n,2) pool items and, for 3 items, every multiset in pool order and reversed, per section "
+              "(n = %s; pool %d, ~Well %d; ~Version/~Well lists follow the mandatory items) x each item in turn widened in %d ways (mandatory items only next to <= %d pool items); "
               "rand: %d seeded whole-file draws with 0..5 extra items per section, both ways of building a section"
               % (json.dumps(Ls, sort_keys=True), len(POOL_QUICK if quick else POOL), len(POOL_QUICK if quick else POOL) + len(POOL_WELL_EXTRA),
                  len(MODES), fixed_upto, nrand))
